@@ -24,6 +24,10 @@ static LALIGN: [AtomicUsize; T] = [const { AtomicUsize::new(0) }; T];
 static LAY_BAD: AtomicUsize = AtomicUsize::new(0);
 static LAY_BAD_WANT: AtomicUsize = AtomicUsize::new(0);
 static LAY_BAD_GOT: AtomicUsize = AtomicUsize::new(0);
+/// strict window (around one call into the code under test): a release of a pointer that the table does not know is counted and
+/// NOT passed on to the system allocator (it would be an invalid free)
+static STRICT: AtomicBool = AtomicBool::new(false);
+static LAY_UNKNOWN: AtomicUsize = AtomicUsize::new(0);
 
 fn lay_insert(p: usize, l: Layout) {
     let mut i = (p >> 4) & (T - 1);
@@ -38,7 +42,7 @@ fn lay_insert(p: usize, l: Layout) {
         i = (i + 1) & (T - 1);
     }
 }
-fn lay_remove(p: usize, l: Layout) {
+fn lay_remove(p: usize, l: Layout) -> bool {
     let mut i = (p >> 4) & (T - 1);
     for _ in 0..64 {
         let cur = LPTR[i].load(Ordering::Relaxed);
@@ -50,13 +54,14 @@ fn lay_remove(p: usize, l: Layout) {
                 LAY_BAD_GOT.store(l.size(), Ordering::Relaxed);
             }
             LPTR[i].store(usize::MAX, Ordering::Relaxed); // tombstone
-            return;
+            return true;
         }
         if cur == 0 {
-            return;
+            return false;
         }
         i = (i + 1) & (T - 1);
     }
+    false
 }
 
 pub struct Tracking;
@@ -73,7 +78,11 @@ unsafe impl GlobalAlloc for Tracking {
     }
     unsafe fn dealloc(&self, p: *mut u8, l: Layout) {
         if LAY_ON.load(Ordering::Relaxed) {
-            lay_remove(p as usize, l);
+            let known = lay_remove(p as usize, l);
+            if !known && STRICT.load(Ordering::Relaxed) {
+                LAY_UNKNOWN.fetch_add(1, Ordering::Relaxed);
+                return;
+            }
         }
         if SCOPE.load(Ordering::Relaxed) {
             SCOPED_LIVE.fetch_sub(l.size() as isize, Ordering::Relaxed);
@@ -114,6 +123,16 @@ pub fn layout_check_start() {
 pub fn layout_check_stop() -> (usize, usize, usize) {
     LAY_ON.store(false, Ordering::Relaxed);
     (LAY_BAD.load(Ordering::Relaxed), LAY_BAD_WANT.load(Ordering::Relaxed), LAY_BAD_GOT.load(Ordering::Relaxed))
+}
+
+/// run `f` (one call into the code under test) in a strict window; returns (result, releases of pointers never allocated since
+/// layout_check_start, releases with a layout other than the allocation's).  Only meaningful between layout_check_start/stop.
+pub fn strict<R>(f: impl FnOnce() -> R) -> (R, usize, usize) {
+    let (u0, b0) = (LAY_UNKNOWN.load(Ordering::Relaxed), LAY_BAD.load(Ordering::Relaxed));
+    STRICT.store(true, Ordering::Relaxed);
+    let r = f();
+    STRICT.store(false, Ordering::Relaxed);
+    (r, LAY_UNKNOWN.load(Ordering::Relaxed) - u0, LAY_BAD.load(Ordering::Relaxed) - b0)
 }
 
 /// start a scenario: forget all watched pointers
